@@ -23,7 +23,7 @@ PROP = {
              "agreement of the two implementations, order preservation and the passed/filtered counters; the enabled pre-filtering in StreamContext::from (JSON).",
         note=TB + "filters are enabled single-criterion ECU filters (Filter::matches itself is C11); regex call targets stubbed (never executed).",
         technique="bounded model checking of the real code (Kani/CBMC): one query per concrete container shape, symbolic filter verdicts"),
-    "jobs": {"quick": 7, "thorough": 4},
+    "jobs": {"quick": 7, "thorough": 3},
     "seed_extra": [("c12_set_", 1, 3)],
     "inject": [("src/filter/filter_impl.rs", "filter_set.rs")],
     "functions": ["utils::remote_utils::match_filters", "filter::Filter::matches (ECU-literal path)", "FilterKindContainer::{index,index_mut}"],
